@@ -1,13 +1,13 @@
 """C14 - entry point metadata matches the shader's entry points."""
-from common import coq_options
+from common import coq_options, coq_string
 import sink
 import obs
 
 ID = "C14"
-REQUIRES = ["Agree", "C14Spec", "Truth"]
+REQUIRES = ["ObsCheck", "Agree", "C14Spec", "Truth"]
 THEOREM_REQUIRES = ["C14"]
-THEOREMS = ["C14_holds_bool", "C14_target_count"]
-PROOF_FILES = ["Proofs/GenInv.v", "Proofs/Tactics.v", "Proofs/C14Proof.v", "Properties/C14.v"]
+THEOREMS = ["C14_holds_bool", "C14_target_count", "C14_holds"]
+PROOF_FILES = ["Proofs/GenInv.v", "Proofs/Tactics.v", "Proofs/C14Proof.v", "Proofs/C14Obs.v", "Properties/C14.v"]
 RULE = ("kitchen-sink shaders with 0..2 entry points per stage, arbitrary (incl. non-ASCII, mixed-case) names, workgroup "
         "sizes with 1-3 dimensions from literals and constants, fragment results: none / builtin / scalar / vector at "
         "location k / structs with dense or sparse locations and builtins, vertex entries with 0..3 struct parameters "
@@ -47,12 +47,42 @@ def run_cases(plain, cases_, workdir, tag):
     return obs.attach(plain, cases_, workdir, tag, lambda c: not c.get("no_obs"), 40 if "search" not in tag else 0)
 
 
+def coq_obs_clause(r, real):
+    """Coq-evaluated: Spec/Obs.v's reading of the extracted output (which entry point each helper names once ENTRY_
+    constants are resolved, how many targets / which buffers in which order) = what the compiled helpers returned and
+    what the compute pipeline constructors handed to the shim device"""
+    o = r["obs"]
+    cs = "; ".join("(%s, %s)" % (coq_string(k), coq_string(v)) for k, v in sorted((o.get("entry_consts") or {}).items()))
+    cps = []
+    for fn, cp in sorted((o["device_log"].get("compute_pipelines") or {}).items()):
+        if not cp.get("layout_is_own") or not cp.get("module_source_is_own"):
+            return "false"
+        cps.append("(%s, %s, %s)" % (coq_string(fn), coq_string(cp.get("label") or ""), coq_string(cp.get("entry_point") or "")))
+    wgs = "; ".join("(%s, (%d%%N, %d%%N, %d%%N))" % (coq_string(k), v[0], v[1], v[2]) for k, v in sorted((o.get("workgroup_sizes") or {}).items()))
+    frs = []
+    for fn, fe in sorted((o.get("fragment_entries") or {}).items()):
+        if "skipped" in fe:
+            return "false"
+        frs.append("(%s, %s, %d%%N)" % (coq_string(fn), coq_string(fe.get("entry_point") or ""), fe.get("n", 0)))
+    vts = []
+    for fn, ve in sorted((o.get("vertex_entries") or {}).items()):
+        if "skipped" in ve:
+            return "false"
+        bufs = "; ".join("(%s, [%s])" % ("true" if b.get("step_mode") == "Instance" else "false",
+                                          "; ".join("%d%%N" % a["shader_location"] for a in b.get("attributes", [])))
+                         for b in ve.get("buffers", []))
+        vts.append("(%s, %s, [%s])" % (coq_string(fn), coq_string(ve.get("entry_point") or ""), bufs))
+    return "obs_entries_ok %s [%s] [%s] [%s] [%s] [%s]" % (real, cs, "; ".join(cps), wgs, "; ".join(frs), "; ".join(vts))
+
+
 def verdict_expr(c, r, ir, real):
     ob = "true"
     if "obs" in r and r.get("result") == "ok":
         ok, why = obs.check_c14(c["truth"], r) if obs.usable(r) else (False, "module did not build / run on the shim: %s" % str(r.get("obs"))[:300])
         c["note"] = why
         ob = "true" if ok else "false"
+        if obs.usable(r):
+            ob += " && " + coq_obs_clause(r, real)
     return _verdict(c, r, ir, real).replace("OBS", ob)
 
 
